@@ -13,6 +13,8 @@ func init() {
 			{Pkg: "wire", Entry: "VerifH11", What: "'S' then only TLS; stuffed plaintext never interpreted; 'N' then plaintext continues",
 				Quick: map[string]int{"STUFF": 4}, Thorough: map[string]int{"STUFF": 9},
 				Witnesses: []string{"upgraded", "stuffed-startup-ignored", "refused-then-plaintext", "cancel-after-upgrade", "repeated-sslrequest-inside-tls", "empty-config-on-field", "limit-enforced-inside-tls", "limit-enforced-after-refusal", "repeated-sslrequest-after-refusal"}},
+			{Pkg: "wire", Entry: "VerifH11", What: "a callback that panics inside a TLS session (the embedder recovers whatever escapes serve): whatever the library writes about it, it writes inside TLS — after 'S' the raw connection carries TLS records only",
+				Quick: map[string]int{"STUFF": 2, "PANICS": 1}, Witnesses: []string{"callback-panicked-inside-tls"}},
 			{Pkg: "wire", Entry: "VerifH12b", What: "CancelRequest after the SSL refusal closes without reply or callback",
 				Quick: map[string]int{}, Witnesses: []string{"cancel-after-ssl"}},
 			{Pkg: "wire", Entry: "VerifH11d", What: "differential: a session (startup, one message of symbolic type and body with a correct, too small or oversized declared length, a simple query, Terminate) served in plaintext and inside TLS by two equally configured servers gives the same transcript and the same callback trace",
